@@ -1,6 +1,7 @@
 import WtfModel.Props.C05
 import WtfModel.Proofs.KeyJson
 import WtfModel.Proofs.KeyJsonLayer
+import WtfModel.Proofs.KeyJsonNorm
 import WtfModel.Gen.KeyJson
 
 /-!
@@ -20,8 +21,9 @@ import WtfModel.Gen.KeyJson
   (`transparent_keyed`, `no_sharing_keyed`, and their `_finite` forms).
 
   Two facts that were hidden in "`enc` injective on `KeyData`" surface as explicit hypotheses:
-    `NormValid E`    the normalised query is valid UTF-8 (encoding/json would write � for an invalid byte whichever it
-                     was).  True of strings.ToLower; monitored on the real normaliser (class norm-query-invalid-utf8).
+    `NormValid E`    the normalised query is valid UTF-8 (encoding/json would write \ufffd for an invalid byte whichever it
+                     was).  True of strings.ToLower: PROVED for the model's normaliser `Wtf.NormQ.normQ` over every table of
+                     Unicode facts (`norm_valid_model`); monitored on the real one (class norm-query-invalid-utf8).
     `WellTyped o`    the request is a well-typed Go value: each option field holds a value of the kind of its Go type, float
                      patterns are 64-bit (the model's `Opts` are untyped; the text of the int 5 and of the float 5.0 is `5`).
   Unchanged: `EngineReadsOnly`, `EngineNormalises` (see Props/C05.lean).
@@ -157,6 +159,15 @@ theorem enc_separates_finite {E : Env Db Ans κ} {hash : Bytes → κ} {fmt : Na
   obtain ⟨e1, e2⟩ := jsonText_proj_inj hf E.utf8 key_names_ok.1 _ _ (typed_both ht.1).1 (typed_both ht'.1).1 m m' h
   rw [hv, hv] at e1
   rw [e1, e2]
+
+omit [DecidableEq κ] in
+/-- `NormValid` holds whenever the environment normalises with the model of strings.ToLower ∘ strings.TrimSpace
+    (Model/NormQ.lean, property C20), for every table of Unicode facts: ToLower copies ASCII-only strings bytewise and
+    rebuilds any other string from utf8.AppendRune outputs, which utf8.DecodeRune accepts. -/
+theorem norm_valid_model (E : Env Db Ans κ) (ri : RuneInfo) (h : E.normQ = NormQ.normQ ri) : NormValid E := by
+  intro q
+  rw [h]
+  exact coerce_normQ ri q
 
 private theorem transparent_on {P : Opts → Prop} (E : Env Db Ans κ) (hinj : InjOn E shC P)
     (hr : EngineReadsOnly E reads) (hn : EngineNormalises E)
